@@ -556,14 +556,14 @@ func (c *c10Ctx) form(r *hx.Rand, x string, vocab, docrel bool) string {
 // ---------- the writer ----------
 
 type c10Writer struct {
-	g       *c10GenT
-	r       *hx.Rand
-	refs    map[string]int  // object references to each blank node over the whole dataset
-	gnames  map[string]bool // blank nodes used as graph names
-	nsubj   map[string]int  // in how many graphs (nodes) a blank node is a subject
-	written map[*c10Node]bool
-	byID    map[string]*c10Node // nodes of the graph being written
-	v11     bool                // the document uses a 1.1-only feature
+	g                  *c10GenT
+	r                  *hx.Rand
+	refs               map[string]int  // object references to each blank node over the whole dataset
+	gnames             map[string]bool // blank nodes used as graph names
+	nsubj              map[string]int  // in how many graphs (nodes) a blank node is a subject
+	written            map[*c10Node]bool
+	byID               map[string]*c10Node // nodes of the graph being written
+	v11                bool                // the document uses a 1.1-only feature
 	aliasID, aliasType string
 	noNest             bool
 	unwritable         bool
